@@ -29,7 +29,12 @@ LEVEL = 'exploration'
 RULE = ('case = one kernel invocation with precondition-satisfying, boundary-biased inputs: arena kinds (cumsum, RVint / PID / '
         'pack9 decoders, subsample zipper, cic_serial, _tsc_scatter, tsc_parallel single-thread, linear_interp, P_n), '
         'simulated kinds (TSC/partition, binning, calc_power kernels, HOD passes, concatenate, expand_poles_to_3d, '
-        'get_smoothing, get_delta_mu2) and one NUMBA_BOUNDSCHECK batch per 40 arena cases. non-trivial = every case; '
+        'get_smoothing, get_delta_mu2) and one NUMBA_BOUNDSCHECK batch per 40 arena cases. sweep (complete, arena and '
+        'bounds-check child): linear_interp on 6 sizes x 3 origins x 3 spacings x arange/linspace float32 grids one '
+        'rounding step inside each end; RVint and PID decoders over every (length, requested-output subset, dtype, '
+        'oversized output); cic_serial / _tsc_scatter / tsc_parallel(nthread=1) over every grid shape of the family x '
+        'offset x dtype x weights with one particle per combination of 7 boundary coordinates per axis. '
+        'non-trivial = every case; '
         'distinct = distinct (kernel, boundary class tuple)')
 COMPONENTS = {'real': ['every @njit kernel of util, bitpacked, pack9, compaso_halo_catalog, tsc, cic, power_spectrum, GRAND_HOD '
                        '(serial ones compiled; parallel ones from the same source as cooperative generators)'],
@@ -72,6 +77,17 @@ def sweep(tier):
     for a in cs:
         if a['where'] == 'ulp-below-last':
             yield {'kind': 'arena', 'kernel': 'power_spectrum.linear_interp', 'args': a}
+    for name, allf in (('bitpacked._unpack_rvint', K.all_rvint), ('bitpacked._unpack_pids', K.all_pids)):
+        al = list(allf())
+        yield {'kind': 'bc', 'cases': [{'kernel': name, 'args': a} for a in al]}
+        for a in al:
+            yield {'kind': 'arena', 'kernel': name, 'args': a}
+    gs = list(K.all_grid())
+    for i in range(0, len(gs), 60):
+        yield {'kind': 'bc', 'cases': [{'kernel': K.GRID_KERNEL[g['kind']], 'args': g} for g in gs[i:i + 60]]}
+    for g in gs:
+        if g['dtype'] == 'f4' and g['weights']:
+            yield {'kind': 'arena', 'kernel': K.GRID_KERNEL[g['kind']], 'args': g}
 
 
 def kernel_call(case, arena):
